@@ -141,6 +141,11 @@ def corner_jobs(tier):
                               input=[E.seg("block", d * 3 + 300000, 11 + delta, period=d - delta)], trace=1))
             J.append(E.mk_job(f"period-fast-d{d}{delta:+d}", opt=dict(dict=d, mode="fast", mf="hc4", nice=273),
                               input=[E.seg("block", d * 3 + 300000, 13 + delta, period=d - delta)], trace=1))
+    # fast mode keeps only dict_size + 1 bytes of history: matches at maximal distance right after a window move, BT4 reaches
+    # extend_match without a checked byte read in front of it
+    for d, delta in ((65536, 0), (65536, 1), (1 << 17, 0)):
+        J.append(E.mk_job(f"period-fastbt4-d{d}{delta:+d}", opt=dict(dict=d, mode="fast", mf="bt4", nice=273),
+                          input=[E.seg("block", d * 2 + 420000, 17 + delta, period=d - delta)], trace=1))
     # finishing with fewer than 8 / 4 / 2 bytes left, tiny streams, every LZMAWriter framing
     for n in (0, 1, 2, 3, 4, 5, 7, 8, 9):
         J.append(E.mk_job(f"tiny-l2-{n}", opt=f4k, input=[E.seg("text", n, n)], trace=2))
@@ -380,7 +385,12 @@ def run_plan(ctx, pid, tier):
            "C15": ["TypeOK", "IndicesInRange", "HistoryRetained", "ExtendInRange", "MatchSourceInRange", "CopyInRange", "MoveInRange"]}[pid]
     names = list(E.SCALED_CFGS) if (pid == "C01" or not quick) else ["fast-hc4-smalldict", "fast-bt4-bigdict", "normal-bt4-smalldict",
                                                                       "lzma1-fast-hc4", "chunksize"]
-    futs = [(n, pool.submit(E.model_check, n, E.scaled(**E.SCALED_CFGS[n][0]), inv)) for n in names]
+    def cfg_consts(n):
+        c = dict(E.SCALED_CFGS[n][0])
+        if not quick:
+            c["N"] = int(c.get("N", 30)) + 4       # longer streams in the thorough tier
+        return E.scaled(**c)
+    futs = [(n, pool.submit(E.model_check, n, cfg_consts(n), inv)) for n in names]
     mf_consts = dict(W=5, Dict=3, Slots="{1,2}", Steps=(24 if quick else 34), NormKind='"%s"' % ab["NormKind"], MaxAge=(2 if quick else 3))
     mf_inv = {"C01": ["DeltaIsTrueDistance", "NoOverflow"], "C13": None, "C15": ["DeltaIsTrueDistance"]}[pid]
     mf_fut = None
